@@ -8,6 +8,7 @@ mod compat;
 mod coerce;
 mod coord;
 mod digest;
+mod docb;
 mod exec;
 mod execb;
 mod fileid;
@@ -58,6 +59,7 @@ fn main() {
         "exec-replay" => exec::replay(rest),
         "schema-cases" => aschema::cases(rest),
         "doc-cases" => adoc::cases(rest),
+        "docb-replay" => docb::replay(rest),
         "rt-replay" => rt::replay(rest),
         "rt-record" => rt::record(rest),
         "rt-typed" => rt::typed(rest),
